@@ -181,13 +181,46 @@ def run(R):
         R.floor('C12.R2', 'future polls', len(polls), 1)
         eb = tonic.body(re.compile(r'service::interceptor::ResponseBody<B> as http_body::Body>::poll_frame$'))
         R.saw(eb)
-        radt = {v['name']: v['discr'] for v in tonic.adt('service::interceptor::ResponseBodyKind')['variants']}
-        okn = False
-        for bb in writers_of(eb, 0):
-            for w in block_writes(eb, bb, 0):
-                if w[0] == 'variant' and w[2] == 'Ready' and strip_refs(w[3][0])[0] == 'agg' and strip_refs(w[3][0])[1].get('variant') == 'None':
-                    okn = any(vals == [radt['Empty']] for s, vals, tm in eb.edge_guards(bb))
-        R.check(okn, 'C12.R2', 'empty-body-yields-nothing', site(eb), 'ResponseBodyKind::Empty -> Ready(None)')
+        # how the empty body is represented: the variant ResponseBody::empty() puts into the body (a private kind enum's Empty, or None of
+        # an Option<B>) — read from empty() itself; then, on the paths of poll_frame / is_end_stream that see that variant:
+        # nothing is yielded, and the body says it is at its end (so the rejection goes out as a trailers-only response: HEADERS with
+        # END_STREAM, no DATA frame, no content-length)
+        emb = tonic.body('service::interceptor::ResponseBody::<B>::empty')
+        R.saw(emb)
+        ev = [x_[1].get('variant') for _, rt_ in mirlib.returned_terms(emb) for x_ in find_terms(mirlib.simplify(rt_), lambda y: y and y[0] == 'agg' and isinstance(y[1], dict) and y[1].get('variant') and not y[2])]
+        if len(set(ev)) != 1:
+            raise CheckError('UNRECOGNISED: ResponseBody::empty() does not build the body from one field-less variant: %r' % ev)
+        EMPTY_V = ev[0]
+
+        def on_empty(body_):
+            meta_ = {}
+            out_ = []
+            for cons_, path_ in mirlib.path_rows(body_, stop=set(writers_of(body_, 0)), meta=meta_):
+                vw_ = cons_view(cons_, meta_)
+                if any(v_ == EMPTY_V and 'arg1' in k_ for k_, v_ in vw_.items()):
+                    out_.append(strip_refs(mirlib.simplify(body_.ret_on_path(path_))))
+            if not out_ and EMPTY_V == 'None':
+                # no branch in this body: an Option combinator decides (std semantics on None)
+                for _, rt_ in mirlib.returned_terms(body_):
+                    r_ = strip_refs(mirlib.simplify(rt_))
+                    if is_call(r_) and 'Option' in r_[1] and r_[2] and arg_root(strip_refs(through_calls(r_[2][0], {'as_ref', 'as_mut', 'as_deref', 'as_pin_mut', 'as_pin_ref', 'get_mut', 'project'}))) == 1:
+                        if r_[3] == 'is_some_and':
+                            out_.append(('const', False))
+                        elif r_[3] in ('is_none_or', 'is_none'):
+                            out_.append(('const', True))
+                        elif r_[3] == 'is_some':
+                            out_.append(('const', False))
+                        elif r_[3] == 'map_or' and len(r_[2]) == 3:
+                            out_.append(strip_refs(r_[2][1]))
+            return out_
+        vals_ = on_empty(eb)
+        okn = bool(vals_) and all(v_ and v_[0] == 'agg' and v_[1].get('variant') == 'Ready' and strip_refs(v_[2][0])[0] == 'agg' and strip_refs(v_[2][0])[1].get('variant') == 'None' for v_ in vals_)
+        R.check(okn, 'C12.R2', 'empty-body-yields-nothing', site(eb), 'the empty body (%s) -> Ready(None): %d path(s)' % (EMPTY_V, len(vals_)))
+        ies = tonic.body(re.compile(r'service::interceptor::ResponseBody<B> as http_body::Body>::is_end_stream$'))
+        R.saw(ies)
+        vals_ = on_empty(ies)
+        oke = bool(vals_) and all(const_val(v_) is True for v_ in vals_)
+        R.check(oke, 'C12.R2', 'empty-body-is-end-stream', site(ies), 'is_end_stream() of the empty body (%s) is true on each of its %d path(s): %r — otherwise the rejection is not a trailers-only response (hyper sends HEADERS without END_STREAM, content-length: 0 and an empty DATA frame)' % (EMPTY_V, len(vals_), [show(v_)[:40] for v_ in vals_]))
 
     # the rejecting status reaches the caller whole: Status::into_http -> to_header_map -> add_header (shared writer)
     with R.guard('C12.R2', 'status-writer'):
